@@ -242,4 +242,11 @@ def rule_setters(ctx):
     rule_set_property(ctx, "O10.setters", mode="errors")
 
 
-RULES = [rule_escapes, rule_oserror_stays_oserror, rule_range_constructors, rule_setters]
+def rule_field_rows(ctx):
+    """Field rows of a CID: every combination of mark, length shape, example and format is accepted or an InterfaceError."""
+    from .c09 import rule_field_row
+
+    rule_field_row(ctx, "O10.fieldrow", mode="errors")
+
+
+RULES = [rule_escapes, rule_oserror_stays_oserror, rule_range_constructors, rule_setters, rule_field_rows]
